@@ -29,7 +29,10 @@ REQUIRED = ["KV.C03.search_refinement", "KV.C03.probing_refines", "KV.C03.probin
             "KV.C03.trie_mark_loss_harmless", "KV.C03.quant_bin_singleton", "KV.C03.quant_exact", "KV.C03.quant_equal_multiplicity_lossless",
             "KV.C03.quant_distinct_fails", "KV.C03.quant_backoff_one_bit_overflows", "KV.C03.quant_centre_underflow_witness"]
 
-REQUIRED_BUILD = ["KV.C03ProbingBuild.insert_capacity_probingSize", "KV.C03ProbingBuild.findOrInsert_capacity_probingSize",
+REQUIRED_BUILD = ["KV.C03ProbingBuild.probing_build_represents", "KV.C03ProbingBuild.probing_end_to_end",
+                  "KV.C03ProbingBuild.probingBuildRepresents_holds", "KV.C03ProbingBuild.demoPruned_represents",
+                  "KV.C03ProbingBuild.demoPruned_end_to_end", "KV.C03ProbingBuild.demoPruned_ok", "KV.C03ProbingBuild.demoPruned_caps",
+                  "KV.C03ProbingBuild.insert_capacity_probingSize", "KV.C03ProbingBuild.findOrInsert_capacity_probingSize",
                   "KV.C03ProbingBuild.insert_below_capacity", "KV.C03ProbingBuild.missing_context_format",
                   "KV.C03ProbingBuild.build_bigram", "KV.C03ProbingBuild.build_bigram_capacity",
                   "KV.C03ProbingBuild.probing_end_to_end_partial",
